@@ -2,8 +2,8 @@ from dataclasses import dataclass
 
 import numpy as np
 from xdsl.context import Context
-from xdsl.dialects import builtin, memref
-from xdsl.dialects.builtin import AffineMapAttr, ArrayAttr, MemRefType
+from xdsl.dialects import arith, builtin, memref
+from xdsl.dialects.builtin import AffineMapAttr, ArrayAttr, IndexType, MemRefType
 from xdsl.ir import Operation
 from xdsl.ir.affine import AffineMap
 from xdsl.passes import ModulePass
@@ -38,6 +38,7 @@ class LayoutResolution(RewritePattern):
             return [1 if j == i else 0 for j in range(n)]
 
         access_patterns: list[AffineMap] = []
+        offsets: list[int] = []
 
         # Do this for every operand:
         for operand in range(len(op.operands)):
@@ -59,13 +60,28 @@ class LayoutResolution(RewritePattern):
 
             strides: list[int] = []
 
+            # the map is affine, not linear: a layout offset shows up in every response
+            offset = access_mem_map.eval([0] * access_mem_map.num_dims, ())[0]
+            offsets.append(offset)
+
             for i in range(access_mem_map.num_dims):
-                strides.append(access_mem_map.eval(generate_one_list(access_mem_map.num_dims, i), ())[0])
+                strides.append(access_mem_map.eval(generate_one_list(access_mem_map.num_dims, i), ())[0] - offset)
 
             access_patterns.append(AffineTransform(np.array([strides]), np.array([0])).to_affine_map())
 
-        new_inputs: list[Operation] = [memref.ExtractAlignedPointerAsIndexOp.get(input) for input in op.inputs]
-        new_outputs = [memref.ExtractAlignedPointerAsIndexOp.get(output) for output in op.outputs]
+        # base pointers, moved to the first element of the layout if it has an offset
+        pointer_ops: list[Operation] = []
+        pointers: list[Operation] = []
+        for operand, offset in zip(op.operands, offsets):
+            pointer: Operation = memref.ExtractAlignedPointerAsIndexOp.get(operand)
+            pointer_ops.append(pointer)
+            if offset != 0:
+                offset_op = arith.ConstantOp.from_int_and_width(offset, IndexType())
+                pointer = arith.AddiOp(pointer, offset_op, IndexType())
+                pointer_ops.extend([offset_op, pointer])
+            pointers.append(pointer)
+        new_inputs = pointers[: len(op.inputs)]
+        new_outputs = pointers[len(op.inputs) :]
 
         new_patterns = ArrayAttr([AffineMapAttr(map) for map in access_patterns])
 
@@ -78,7 +94,7 @@ class LayoutResolution(RewritePattern):
             op.accelerator,
             op.result_types,
         )
-        rewriter.replace_op(op, [*new_inputs, *new_outputs, access_pattern_op], access_pattern_op.results)
+        rewriter.replace_op(op, [*pointer_ops, access_pattern_op], access_pattern_op.results)
 
 
 @dataclass(frozen=True)
